@@ -44,6 +44,8 @@ func (c *Check) noPubHandlerIn(id string, ctor *ssa.Function) *ssa.Function {
 }
 
 func runC17(c *Check) {
+	LostReceiverStores(c, "C17.CFG", "components/forwarder", "components/requeuer", "components/fanin")
+	DefaultsApplied(c, "C17.CFG", "components/forwarder", "components/requeuer", "components/fanin")
 	c17Forwarder(c)
 	c17ForwarderPublisher(c)
 	// the forwarder pair relays through the JSON envelope: its field-by-field agreement (also decided as C16.O4) is what keeps UUID, payload and metadata intact
@@ -114,6 +116,18 @@ func c17Forwarder(c *Check) {
 		}
 		c.Report(GuardedBy(fn, r, append(append([]Edge{}, uwFail...), pubFail...)), P+".O1", "RELAY-FAILS-ONLY-ON-FAULT", fn, r.Pos(), fmt.Sprintf("return#%d", i), "the forwarder refuses a message (⇒ Nack, redelivery) only when it could not be unwrapped or the destination Publish failed — not because of what the envelope says (e.g. its destination topic)")
 	}
+	// on the unwrap-error edge the option alone decides: with AckWhenCannotUnwrap set every non-envelope is acked, whatever
+	// made it a non-envelope (undecodable bytes, JSON of another shape, an empty destination)
+	_, ackFalse := BoolEdges(fn, exportedFieldLoad("AckWhenCannotUnwrap"))
+	for _, e := range uwFail {
+		re := ReachEdge(e, NewCut().AddEdges(ackFalse...))
+		for i, r := range Returns(fn) {
+			if re[r] && !RetNil(r, len(r.Results)-1) {
+				c.Report(false, P+".O1", "ACK-OPTION-ALONE-DECIDES", fn, r.Pos(), fmt.Sprintf("return#%d", i), "a failing return (⇒ Nack) on the unwrap-error edge lies behind the edge on which AckWhenCannotUnwrap is false: no further condition (the kind of unwrap error, …) makes the forwarder Nack a non-envelope although the option is set")
+			}
+		}
+	}
+	c.Report(true, P+".O1", "ACK-OPTION-SCANNED", fn, fn.Pos(), "AckWhenCannotUnwrap", "failing returns on the unwrap-error edge examined")
 	for _, e := range uwFail {
 		re := ReachEdge(e, nil)
 		bad := false
@@ -366,8 +380,33 @@ func sliceBuiltFrom(v ssa.Value, elem func(ssa.Value) bool) bool {
 			}
 			return x.Low == nil && x.High == nil && rec(x.X)
 		case *ssa.MakeSlice:
-			n, ok := IntConst(x.Len)
-			return ok && n == 0
+			if n, ok := IntConst(x.Len); ok {
+				return n == 0
+			}
+			// make([]T, len(S)) filled by index in a full range loop over S: out[i] = elem, in every iteration
+			largs, isLen := IsBuiltinCall(x.Len, "len")
+			if !isLen || len(largs) != 1 {
+				return false
+			}
+			nst := 0
+			for _, ref := range *x.Referrers() {
+				ia, isIA := ref.(*ssa.IndexAddr)
+				if !isIA {
+					continue
+				}
+				for _, r2 := range *ia.Referrers() {
+					st, isSt := r2.(*ssa.Store)
+					if !isSt || st.Addr != ssa.Value(ia) {
+						continue
+					}
+					inc, isIns := ia.Index.(ssa.Instruction)
+					if !isIns || !isRangeIndexOver(ia.Index, largs[0]) || !AllOrigins(st.Val, elem) || ReachWithout(inc, inc, st) {
+						return false
+					}
+					nst++
+				}
+			}
+			return nst > 0
 		case *ssa.Const:
 			return x.IsNil()
 		case *ssa.Call:
@@ -533,6 +572,20 @@ func c17Requeuer(c *Check) {
 		c.Report(AllOrigins(Arg(ad, 1), exportedFieldLoad("SubscribeTopic")) && AllOrigins(Arg(ad, 2), exportedFieldLoad("Subscriber")), P+".O2", "REQUEUER-REGISTRATION", ctor, ad.Pos(), "registration",
 			"the requeuer consumes config.SubscribeTopic from config.Subscriber")
 	}
+	// the relay handler is not idempotent (it raises the counter on the consumed message): the component itself puts
+	// nothing around it that could run it twice on one delivery — no middleware, plugin or decorator on its router
+	nreg := 0
+	for _, f := range c.P.SrcFuncs("components/requeuer") {
+		for _, cl := range CallsIn(f) {
+			switch CalleeName(cl) {
+			case "(*" + msgPkg + ".Router).AddMiddleware", "(*" + msgPkg + ".Handler).AddMiddleware", "(*" + msgPkg + ".Router).AddPlugin",
+				"(*" + msgPkg + ".Router).AddPublisherDecorators", "(*" + msgPkg + ".Router).AddSubscriberDecorators":
+				nreg++
+				c.Report(false, P+".O3", "REQUEUER-HANDLER-RUNS-ONCE-PER-DELIVERY", f, cl.Pos(), CalleeName(cl), "the requeuer wraps its own handler in nothing that re-runs it (a retry around it raises the retries counter more than once per delivery)")
+			}
+		}
+	}
+	c.Report(true, P+".O3", "REQUEUER-WRAPPERS-SCANNED", ctor, ctor.Pos(), "package requeuer", fmt.Sprintf("%d middleware / plugin / decorator registrations by the requeuer itself", nreg))
 }
 
 // decimalOf recognises strconv.Itoa(x) and strconv.FormatInt(int64(x), 10).
@@ -683,6 +736,14 @@ func sameValue(a, b ssa.Value) bool {
 	oa, ob := Origins(a), Origins(b)
 	if len(oa) != 1 || len(ob) != 1 {
 		return false
+	}
+	// the address of a local captured by a closure is that local
+	for _, os := range [][]ssa.Value{oa, ob} {
+		if fv, isFV := os[0].(*ssa.FreeVar); isFV {
+			if bnd, isAlloc := FreeVarBinding(fv).(*ssa.Alloc); isAlloc {
+				os[0] = bnd
+			}
+		}
 	}
 	if oa[0] == ob[0] {
 		return true
@@ -902,4 +963,21 @@ func c17ForwarderMiddlewares(c *Check, id string) {
 		c.Report(okH, id, "FORWARDER-MIDDLEWARES-ON-ITS-HANDLER", ctor, cl.Pos(), "registration of Config.Middlewares", "the configured middlewares are added to the forwarder's own handler (handler-level), not to the router, which other handlers may share")
 	}
 	c.Floor(id, "registration of Config.Middlewares in NewForwarder", n, 1)
+}
+
+// isRangeIndexOver: idx is the index of a full ascending range loop over the slice s (`for i := range s` or
+// `for i, x := range s`).
+func isRangeIndexOver(idx ssa.Value, s ssa.Value) bool {
+	bo, ok := idx.(*ssa.BinOp)
+	if !ok || !isRangeCounter(bo) {
+		return false
+	}
+	for _, ref := range *bo.Referrers() {
+		if cmp, isC := ref.(*ssa.BinOp); isC && cmp.Op == token.LSS && cmp.X == ssa.Value(bo) {
+			if args, isL := IsBuiltinCall(cmp.Y, "len"); isL && len(args) == 1 && sameValue(args[0], s) {
+				return true
+			}
+		}
+	}
+	return false
 }
